@@ -3,8 +3,11 @@
 import glob, json, os
 V = os.path.dirname(os.path.dirname(os.path.abspath(__file__)))
 checks, claimed = [], set()
+ready = set(json.load(open(os.path.join(V, "tools", "ready.json"))))
 for p in sorted(glob.glob(os.path.join(V, "props", "C*.json"))):
     c = json.load(open(p))
+    if c["property_id"] not in ready:
+        continue
     pid = c["property_id"]
     claimed.add(pid)
     checks.append({
